@@ -480,6 +480,10 @@ def check_entry(e: int, a: int, b: int, x: int) -> bool:
     e = h.concrete(e, 0, len(ENTRIES) - 1)
     a = h.concrete(a, 0, 5)
     b = h.concrete(b, 0, 5)
+    # x has four values: concretised, because formatting / repr / float
+    # division of a symbolic x inside the entries (histogram, graph) is
+    # realised value by value and never exhausts (8 000 paths in 900 s)
+    x = h.concrete(x, -1, 2)
     try:
         with quiet():
             ENTRIES[e](a, b, x)
